@@ -142,6 +142,8 @@ class Ctx:
         self.cases = []             # (fn, argstr, impl_out, qrule, klass)
         self.pred_fail = []         # dicts
         self.known_matcher = None   # callable(failure) -> finding id | None (set by the runner)
+        self.noise = None           # history.Noise (set by the runner)
+        self.noise_period = 53
         self.known_counts = {}
         self.pred_count = 0
         self.pred_classes = {}
@@ -156,6 +158,12 @@ class Ctx:
         return max(1, int(base * self.scale))
 
     # -- structural tie ------------------------------------------------------
+    def _tick(self):
+        # history noise (harness/history.py): every so often, call an unrelated public function
+        self._ticks = getattr(self, '_ticks', 0) + 1
+        if self.noise is not None and self._ticks % (self.noise_period * (1 + self.noise.calls // 200)) == 0:
+            self.noise.call(1)      # the period grows with the calls made, so the noise spreads over the whole run
+
     def case(self, fn, args, impl_out, q='exact', klass=None, f=True):
         """Register one correspondence case.
 
@@ -164,6 +172,7 @@ class Ctx:
         q         : None (no Q run) | 'exact' | ('abs', tol) | ('rel', tol) | ('absmod', tol, modulus)   rule for float tokens
         f         : whether the binary64 model must agree bit for bit
         """
+        self._tick()
         argstr = ' '.join(enc(a) for a in args)
         self.cases.append((fn, argstr, impl_out, q, klass or fn, f))
         k = klass or fn
@@ -171,6 +180,7 @@ class Ctx:
 
     # -- property predicates on the implementation ---------------------------
     def predicate(self, name, ok, inp, detail=None, klass=None):
+        self._tick()
         self.pred_count += 1
         k = klass or name
         self.pred_classes[k] = self.pred_classes.get(k, 0) + 1
